@@ -303,7 +303,7 @@ fn reduced_entries(seed: u64) -> Vec<ESpec> {
 
 fn replay(case: &Value, st: &mut Stats) {
     if case["kind"] != "spec" {
-        eprintln!("this replay kind ({}) needs the CPython producer: run the check itself", case["kind"]);
+        crate::diag!("this replay kind ({}) needs the CPython producer: run the check itself", case["kind"]);
         return;
     }
     let spec = Spec::from_json(&case["spec"]);
@@ -348,7 +348,7 @@ pub fn run(args: &Args) -> i32 {
         }
     });
     ctx.stats.merge(s);
-    eprintln!("  [C03] one-entry product done at {:.1}s", ctx.elapsed());
+    crate::diag!("  [C03] one-entry product done at {:.1}s", ctx.elapsed());
 
     // multi-entry
     let red = reduced_entries(seed);
@@ -401,11 +401,11 @@ pub fn run(args: &Args) -> i32 {
         check_archive(&spec, &bytes, &lay, &mut st0, (3 << 40) + ai as u64, "zero-entries");
     }
     ctx.stats.merge(st0);
-    eprintln!("  [C03] multi-entry done at {:.1}s", ctx.elapsed());
+    crate::diag!("  [C03] multi-entry done at {:.1}s", ctx.elapsed());
 
     // CPython producer
     cpython_producer(&mut ctx, thorough);
-    eprintln!("  [C03] cpython producer done at {:.1}s", ctx.elapsed());
+    crate::diag!("  [C03] cpython producer done at {:.1}s", ctx.elapsed());
 
     ctx.stats.states = ctx.stats.distinct.len() as u64;
     ctx.stats.transitions = ctx.stats.evals;
